@@ -312,10 +312,10 @@ def o_c07(tr):
             if prev is not None:
                 for k in prev.recs[m]:
                     if k not in d.recs[m]:
-                        # pruned: must be the lowest of its registration
-                        others = [h for (i, h) in prev.recs[m] if i == k[0]]
-                        if k[1] != min(others):
-                            yield {"oracle": "prune-oldest", "signature": m, "detail": "%s pruned but not oldest" % (k,)}
+                        # pruned (possibly several within one block): every pruned key is older than every survivor
+                        survivors = [h for (i, h) in prev.recs[m] if i == k[0] and (i, h) in d.recs[m]]
+                        if survivors and k[1] > min(survivors):
+                            yield {"oracle": "prune-oldest", "signature": m, "detail": "%s pruned but %d survives" % (k, min(survivors))}
         for i, r in d.reg["bcn"].items():
             ks = sorted(h for (j, h) in d.recs["bcn"] if j == i)
             if ks and ks != list(range(ks[0], ks[0] + len(ks))):
@@ -339,7 +339,8 @@ def o_c08(tr):
                         pl = int(prev.reg[m][i]["limit"])
                         if lim < pl:
                             yield {"oracle": "limit-never-lowered", "signature": m, "detail": "%d: %d -> %d" % (i, pl, lim)}
-                        if lim > d.regparams[m]["max"] and lim != pl:
+                        # the maximum in force at purchase time is the previous or the new one (gov changes land in END)
+                        if lim != pl and lim > max(d.regparams[m]["max"], prev.regparams[m]["max"]):
                             yield {"oracle": "limit<=max", "signature": m, "detail": "%d: %d > %d" % (i, lim, d.regparams[m]["max"])}
 
 
